@@ -721,7 +721,7 @@ func emptyBattery(st *trie.SlimTrie, qs []string) string {
 
 func c07NumCases(tier string) int {
 	if tier == "thorough" {
-		return 4000
+		return 10000
 	}
 	return 500
 }
@@ -990,7 +990,7 @@ func runC07(ctx *Ctx, idx int) {
 
 func c20NumCases(tier string) int {
 	if tier == "thorough" {
-		return 7500
+		return 40000
 	}
 	return 600
 }
